@@ -272,9 +272,10 @@ Proof.
     rewrite !cget_mk by auto. unfold core_scale.
     rewrite cget_mk by (auto using div_bound). ring.
 Qed.
-Lemma vstep2_core_scale_r c v G1 G2 :
+Lemma vstep2_core_scale_r c v G1 G2 : cn G2 = cn G1 ->
   vstep2 K v G1 (core_scale K c G2) = vscale K c (vstep2 K v G1 G2).
 Proof.
+  intros En.
   apply (list_eq_nth 0).
   - unfold vscale, vstep2. now rewrite map_length, !tab_length.
   - unfold vstep2 at 1. rewrite tab_length. change (cr2 (core_scale K c G2)) with (cr2 G2).
@@ -286,17 +287,7 @@ Proof.
     unfold core_kron. change (cr2 (core_scale K c G2)) with (cr2 G2).
     change (cr1 (core_scale K c G2)) with (cr1 G2).
     rewrite !cget_mk by auto. unfold core_scale.
-    destruct (Nat.lt_ge_cases i (cn G2)) as [Hi2|Hi2].
-    + rewrite cget_mk by (eauto using mod_bound). ring.
-    + (* mode sizes differ and i is outside G2: both sides read the default 0 *)
-      unfold cget at 2 4. unfold mkcore; cbn [dat].
-      rewrite (nth_overflow (nth (a mod cr1 G2) (tab (cr1 G2) _) [])).
-      2:{ rewrite nth_tab by (eauto using mod_bound). rewrite tab_length. exact Hi2. }
-      cbn [nth]. destruct (b mod cr2 G2)%nat; cbn [nth];
-      match goal with |- context [nth _ (nth i (nth ?x ?l []) []) 0] =>
-        assert (E : nth i (nth x l []) [] = []) by
-          (destruct (Nat.lt_ge_cases x (length l)) as [Hx|Hx];
-           [idtac|rewrite (nth_overflow l) by exact Hx; now destruct i]) end.
+    rewrite cget_mk by (try rewrite En; eauto using mod_bound). ring.
 Qed.
 Lemma wfo_scale_one c A G B : forall idx r rl, wfo r (A ++ G :: B) idx rl <-> wfo r (A ++ core_scale K c G :: B) idx rl.
 Proof.
